@@ -58,6 +58,7 @@ str_of_obj = z3.Function('sp_str_of_obj', S, S)           # str(obj built from s
 hook_sav_ok = z3.Function('hook_sav_ok', Ty, so.YNode, B)
 hook_sav = z3.Function('hook_sav', Ty, so.YNode, so.YNode)
 hook_sav_msg = z3.Function('hook_sav_msg', Ty, so.YNode, S)
+hook_sav_hasmsg = z3.Function('hook_sav_hasmsg', Ty, so.YNode, B)
 
 pick = z3.Function('sp_pick', so.TySet, Ty)
 pick2 = z3.Function('sp_pick2', so.TySet, Ty)
@@ -773,6 +774,10 @@ class TypesPlugin:
                 if good:
                     out.append((s2, VPyObj('strlike', fv.t, a.t)))
                 else:
+                    # an arbitrary exception, with or without arguments
+                    out.append((s2.fork(), Raise(VExc('UserException', (),
+                                                      getattr(node, 'lineno',
+                                                              0)))))
                     out.append((s2, Raise(VExc('UserException', (VStr(fresh(
                         'usermsg', S)),), getattr(node, 'lineno', 0)))))
             return out
@@ -815,9 +820,11 @@ class TypesPlugin:
                     s2.heap[arg.oid]['yaml_node'] = r
                     out.append((s2, NONE))
                 else:
-                    out.append((s2, Raise(VExc(
-                        'SeasoningError', (VStr(hook_sav_msg(hv.t, n)),),
-                        line))))
+                    # with or without a message: raise SeasoningError()
+                    for s3, hm in eng.branch(s2, hook_sav_hasmsg(hv.t, n)):
+                        a = (VStr(hook_sav_msg(hv.t, n)),) if hm else ()
+                        out.append((s3, Raise(VExc('SeasoningError', a,
+                                                   line))))
             return out
         return None
 
